@@ -22,6 +22,16 @@ type C09Case struct {
 	WS Workspace `json:"ws"`
 	// Orders: for each repetition a permutation seed for the file creation order, GOMAXPROCS and CPU pinning
 	Runs []C09Run `json:"runs"`
+	// Events: after the initial analysis, file events arrive in batches (the same batches, in the same
+	// order, in every run): a priming didChangeWatchedFiles naming every file as changed (contents
+	// unchanged), then one in which the files of Changed really have new contents on disk
+	Events *C09Events `json:"events,omitempty"`
+}
+
+type C09Events struct {
+	Changed []int `json:"changed"` // indices into WS.Files whose disk content gets the extra lines
+	Reader  int   `json:"reader"`  // file that reads the globals the changed files now define
+	Order   []int `json:"order"`   // order of the events inside the notification (all files)
 }
 
 type C09Run struct {
@@ -78,6 +88,17 @@ func genC09(t *rapid.T) C09Case {
 	nfill := rapid.SampledFrom([]int{0, 3, 20}).Draw(t, "nfill")
 	for i := 0; i < nfill; i++ {
 		c.WS.Files = append(c.WS.Files, WSFile{Path: fmt.Sprintf("fill/f%02d.lua", i), Text: fmt.Sprintf("Fill%d = %d\nprint(Fill%d)\nlocal unused%d = 1\n", i, i, (i+1)%nfill, i)})
+	}
+	if len(c.WS.Files) >= 2 && rapid.Bool().Draw(t, "events") {
+		ev := &C09Events{}
+		nmain := len(c.WS.Files) - nfill
+		if nmain < 1 {
+			nmain = len(c.WS.Files)
+		}
+		ev.Changed = []int{rapid.IntRange(0, nmain-1).Draw(t, "evChanged")}
+		ev.Reader = rapid.IntRange(0, len(c.WS.Files)-1).Draw(t, "evReader")
+		ev.Order = rapid.Permutation(seqInts(len(c.WS.Files))).Draw(t, "evOrder")
+		c.Events = ev
 	}
 	nruns := 6
 	if tier() == "thorough" {
@@ -338,7 +359,50 @@ func checkC09(c C09Case, env *Env) *Violation {
 				req.Files = append(req.Files, proto.File{Path: f.Path, Data: []byte(f.Text)})
 			}
 		}
-		req.Steps = c.WS.openAll()
+		evStep, evQBase := -1, -1
+		if c.Events != nil {
+			var all [][2]interface{}
+			for _, k := range c.Events.Order {
+				all = append(all, [2]interface{}{c.WS.Files[k].Path, 2})
+			}
+			req.Steps = append(req.Steps, harness.Watched(all...))
+			newText := map[int]string{}
+			for _, k := range c.Events.Changed {
+				newText[k] = c.WS.Files[k].Text + fmt.Sprintf("\nEvtG%d = 1\n", k)
+			}
+			rd := c.Events.Reader
+			if _, ok := newText[rd]; !ok {
+				newText[rd] = c.WS.Files[rd].Text
+			}
+			for _, k := range c.Events.Changed {
+				newText[rd] += fmt.Sprintf("\nprint ( EvtG%d )\n", k)
+			}
+			for _, k := range c.Events.Order {
+				if txt, ok := newText[k]; ok {
+					req.Steps = append(req.Steps, proto.Step{Op: "write", Path: c.WS.Files[k].Path, Data: []byte(txt)})
+				}
+			}
+			req.Steps = append(req.Steps, harness.Watched(all...))
+			evStep = len(req.Steps) - 1
+			for k, f := range c.WS.Files {
+				txt := f.Text
+				if nt, ok := newText[k]; ok {
+					txt = nt
+				}
+				req.Steps = append(req.Steps, harness.DidOpen(f.Path, txt))
+			}
+			// where the reader uses the new global of the first changed file
+			rtxt := newText[rd]
+			off := strings.LastIndex(rtxt, "EvtG")
+			l, ch := refmodel.PosOf(rtxt, off)
+			evQ := []proto.Step{harness.Call("textDocument/definition", harness.TDPos(c.WS.Files[rd].Path, l, ch)),
+				harness.Call("textDocument/hover", harness.TDPos(c.WS.Files[rd].Path, l, ch)),
+				harness.Call("textDocument/references", refParams(c.WS.Files[rd].Path, l, ch))}
+			evQBase = len(req.Steps)
+			req.Steps = append(req.Steps, evQ...)
+		} else {
+			req.Steps = append(req.Steps, c.WS.openAll()...)
+		}
 		base := len(req.Steps)
 		for _, x := range qs {
 			req.Steps = append(req.Steps, harness.Call(x.method, x.params))
@@ -361,12 +425,27 @@ func checkC09(c C09Case, env *Env) *Violation {
 		}
 		sort.Strings(ds)
 		out.diags = strings.Join(ds, "\n")
+		if evStep >= 0 {
+			var es []string
+			for k, n := range viewOf(o.Resp.Pushes, evStep) {
+				es = append(es, fmt.Sprintf("after-events %dx %s", n, k))
+			}
+			sort.Strings(es)
+			out.diags += "\n" + strings.Join(es, "\n")
+		}
 		for i := range qs {
 			r := harness.ResultOf(o.Resp, base+i)
 			if r == nil {
 				return violf("inconclusive", "missing result")
 			}
 			out.answers = append(out.answers, normJSON(r.Result)+r.Error)
+		}
+		if evQBase >= 0 {
+			for i := 0; i < 3; i++ {
+				if r := harness.ResultOf(o.Resp, evQBase+i); r != nil {
+					out.diags += fmt.Sprintf("\nafter-events query %d: %s%s", i, normJSON(r.Result), r.Error)
+				}
+			}
 		}
 		if first == nil {
 			first, firstRun = out, run
